@@ -160,8 +160,8 @@ def prop_case(case):
 
 
 @st.composite
-def c09_case(draw):
-    case = draw(simrun.sim_case(sims=simrun.SINGLE_NEIGHBOUR, nmax=25))
+def c09_case(draw, sim=None):
+    case = draw(simrun.sim_case(sims=([sim] if sim else simrun.SINGLE_NEIGHBOUR), nmax=25))
     if (case.get('rule') or {}).get('kind') == 'table' and case['sim'] == 'fast_nonMarkov_SIR':
         case['rule']['dur'] = [0.5 if d == 0 else d for d in case['rule']['dur']]
         case['rule']['delay'] = [0.5 if d == 0 else d for d in case['rule']['delay']]
@@ -187,4 +187,5 @@ def run(ctx):
                 'sourced entries (SIS-like models: additionally a node infected twice); distinct by case digest.')
     ctx.assumptions = ['discrete-time simulators: tmax-tmin whole or infinite', 'real RNG: simultaneous events have probability 0; for table rules a source counts as infectious at t if it is '
                        'infectious at or immediately before t', 'induced moves of the generic simulator are read from the specification']
-    run_hypothesis(ctx, 'transmissions', c09_case(), prop_case, 1500 if quick else 60000, rounds=5)
+    for sim in simrun.SINGLE_NEIGHBOUR:
+        run_hypothesis(ctx, 'transmissions', c09_case(sim), prop_case, (220 if sim == 'Gillespie_simple_contagion' else 130) if quick else 5000, rounds=3)
